@@ -469,6 +469,13 @@ func c12SinkOwnership(c *Ctx, rule string) {
 	if !c.Anchor(rule, "zapcore.BufferedWriteSyncer", bws != nil) {
 		return
 	}
+	// (the roles of the fields are discovered here as well: this rule also runs for properties that do not run c12Rules)
+	if roles, ok := discoverBWS(c, bws); ok {
+		bwsR = roles
+	} else {
+		c.Und(rule, "zapcore.BufferedWriteSyncer", "roles", bws.Obj().Pos(), "the roles of the BufferedWriteSyncer's fields (bufio writer, mutex, …) cannot be told")
+		return
+	}
 	var direct, discard, pieces []string
 	n := 0
 	c.EachRootFunc(func(fn *ssa.Function) {
